@@ -13,7 +13,9 @@ tvars == <<i, ord>>
 
 It(r) == [k |-> r.k, n |-> r.n, v |-> <<r.v[1], r.v[2]>>, e |-> r.e]
 Items(s) == [j \in DOMAIN s |-> It(s[j])]
-Inexact(s) == \E j \in DOMAIN s : s[j].ty = "float" \/ s[j].v[2] < 0
+Inexact(s) == \E j \in DOMAIN s : s[j].ty = "float" \/ s[j].v[2] = -3
+\* a numeric element beyond 32 bits is sent as the sentinel <<0, -2>>: outside the model range
+TooBig(s) == \E j \in DOMAIN s : s[j].v[2] = -2
 ElsOf(t) == SelectSeq(t, LAMBDA it : it.k = "el")
 InOrder(t) == LET es == ElsOf(t) IN
     {<<es[pr[1]].n, es[pr[2]].n>> : pr \in {q \in (DOMAIN es) \X (DOMAIN es) : q[1] < q[2]}}
@@ -73,7 +75,9 @@ Init == i = 1 /\ ord = {}
 Step ==
     /\ i <= Len(Tr) /\ i' = i + 1
     /\ LET ev == Tr[i]
-           j0 == Judge(ev)
+           big == /\ ev.op \in {"make", "norm", "mul", "div", "pow", "mulnum", "rdiv", "divnum"}
+                  /\ (TooBig(ev.res) \/ (ev.op # "norm" /\ TooBig(ev.resn)))
+           j0 == IF big THEN "oor" ELSE Judge(ev)
            j == IF j0 = "ok" THEN ResNorm(ev) ELSE j0 IN
        /\ IF j = "ok" THEN TRUE ELSE PrintT(<<"QV", j, ev.id, "">>)
        /\ ord' = IF ev.op = "norm" /\ j = "ok" THEN ord \cup InOrder(Items(ev.res)) ELSE ord
